@@ -558,6 +558,16 @@ fn may_touch(e: &Expect, p: &str) -> bool {
     }
 }
 
+/// may an existing file at `p` be rewritten by this invocation at all? (not when overwriting
+/// was refused: -n, or every prompt answered no)
+fn declined_ok(e: &Expect, before: &Snap, p: &str) -> bool {
+    match e {
+        Expect::Seq { overwrite, .. } => *overwrite || !before.contains_key(p),
+        Expect::Conv { written, .. } => *written,
+        Expect::Reject => false,
+    }
+}
+
 fn is_prefix(a: &[u8], full: &[u8]) -> bool {
     full.len() >= a.len() && &full[..a.len()] == a
 }
@@ -571,6 +581,11 @@ fn check_relaxed(e: &Expect, fo: &InvOut, rec: &InvOut, before: &Snap, rec_after
             return Some(Fail { clause: "conservation-under-fault", inv: inv_i, detail: format!("{p} changed or disappeared under an injected fault") });
         }
     }
+    for p in before.keys() {
+        if !after.contains_key(p) {
+            return Some(Fail { clause: "wrong-data-under-fault", inv: inv_i, detail: format!("{p} existed before the invocation and is gone") });
+        }
+    }
     for (p, c) in after {
         if before.get(p) == Some(c) {
             continue;
@@ -580,23 +595,22 @@ fn check_relaxed(e: &Expect, fo: &InvOut, rec: &InvOut, before: &Snap, rec_after
         }
         let ok = match (c, rec_after.get(p)) {
             (None, Some(None)) => true,
-            (Some(n), Some(Some(r))) => is_prefix(n, r),
+            (Some(n), Some(Some(r))) => declined_ok(e, before, p) && is_prefix(n, r),
             _ => false,
         };
         if !ok {
             return Some(Fail { clause: "wrong-data-under-fault", inv: inv_i, detail: format!("{p} holds data that is neither its old content nor a prefix of the correct content") });
         }
     }
-    if !crash && fo.out.code == Some(0) && !fo.out.stdout.contains("Error") && !fo.out.stderr.contains("Error") {
+    // exit status 0 is a report of success, whatever was printed
+    if !crash && fo.out.code == Some(0) {
         for (p, c) in rec_after {
             if may_touch(e, p) && after.get(p) != Some(c) {
-                return Some(Fail { clause: "silent-failure", inv: inv_i, detail: format!("exit 0 without an error message, but {p} differs from the fault-free result") });
+                return Some(Fail { clause: "silent-failure", inv: inv_i, detail: format!("exit status 0 although an I/O fault was injected, but {p} differs from the fault-free result; stdout {:?}", tail(&fo.out.stdout)) });
             }
         }
-        if fo.out.stdout != rec.out.stdout {
-            return Some(Fail { clause: "silent-failure", inv: inv_i, detail: format!("exit 0 without an error message, but stdout differs from the fault-free run: {:?} vs {:?}", tail(&fo.out.stdout), tail(&rec.out.stdout)) });
-        }
     }
+    let _ = rec;
     None
 }
 
